@@ -499,7 +499,7 @@ def part_entry_points(ctx):
             C(True, "none", "shanghai"), C(True, "gas", "prague"), C(True, "codesize", "cancun")]
     if ctx.tier == "thorough":
         cfgs += [C(True, "O3", "prague"), C(True, "gas", "paris"), C(False, "gas", "paris", debug=True)]
-    n = 0
+    n = ntrunc = 0
     shapes = set()
     for src, chunk, base in E.contracts(fns):
         for cfg in cfgs:
@@ -532,6 +532,22 @@ def part_entry_points(ctx):
                                      "len*1000+sum (DynArray), len(label)*1000+weight (dynamic struct), ...; supplied and default values differ"},
                             key=f"entry-points:{'venom' if cfg.venom else 'legacy'}")
                         return n
+                    # calldata shorter than the head of the argument tuple (selector intact) must revert
+                    head = E.head_size(types, vals)
+                    for ln in E.truncation_lengths(head, ctx.tier):
+                        r = ch.call(addr, data[:ln])
+                        n += 1
+                        ntrunc += 1
+                        if r.ok:
+                            got = [int.from_bytes(r.out[i:i + 32], "big") for i in range(0, len(r.out), 32)]
+                            ctx.violation(
+                                "failing-input", "entry point accepts calldata shorter than its static argument size (min_calldatasize)",
+                                {"source": src, "config": cfg.name, "function": f.source(base + j), "called_signature": sig,
+                                 "calldata": data[:ln].hex(), "calldata_length": ln, "min_calldatasize(4 + head of the argument tuple)": head,
+                                 "expected": "revert", "observed": ["ok", got]},
+                                key=f"entry-points:mincds:{'venom' if cfg.venom else 'legacy'}")
+                            return n
+    ctx.corr["entry_point_truncated_calls"] = ntrunc
     ctx.corr["entry_point_calls"] = n
     ctx.corr["entry_point_shapes"] = len(shapes)
     return n
